@@ -26,6 +26,8 @@ the optional fourth column, and the arguments sysabs was consulted with.
 import ast
 import itertools
 
+from fractions import Fraction
+
 from xfabsa import core, tables
 from xfabsa.core import AnalysisError
 from xfabsa.poly import Rat
@@ -33,7 +35,6 @@ from xfabsa.symeval import Arr, Opaque, RaiseReached, Undecided, scalar, materia
 from xfabsa.objeval import PyRaise
 from props.hklwalk import TailEval, Sorted, _bind_params
 
-REGION = {-1: "below-min", 0: "at-min", 1: "in-shell", 2: "at-max", 3: "between", 4: "at-cutoff", 5: "beyond"}
 
 def _solve3(g1, g2, g3, d):
     """integers (a, b, c) >= 0 with a*g1 + b*g2 + c*g3 == d, or None (generators that are zero contribute nothing)"""
@@ -107,17 +108,39 @@ class BandModel:
     """level L(p) = a + b + c of p = apex + a g1 + b g2 + c g3 in its cone (the smallest, should cones overlap; L(-p) = L(p)):
     non-decreasing along every generator from every cone point by construction"""
 
-    def __init__(self, table, seed, scaled, target=45):
+    def __init__(self, table, seed, scale=None, target=45):
+        """scale: the thresholds the code compares sin(theta)/lambda with, as sorted (base, factor) pairs with base 0 = sintlmin,
+        1 = sintlmax; (0, 1) and (1, 1) are always there.  Position 2j means `at threshold j`, 2j-1 `between j-1 and j`, -1
+        below all, 2n-1 beyond all."""
         self.table = [[tuple(v) for v in cone] for cone in table]
         self.seed = seed
-        self.scaled = scaled
+        self.scale = sorted(set(scale or ()) | {(0, Fraction(1)), (1, Fraction(1))})
+        n = len(self.scale)
+        self.i_min, self.i_max = self.scale.index((0, Fraction(1))), self.scale.index((1, Fraction(1)))
+        self.beyond = 2 * n - 1
+        self.cut = 2 * (n - 1)                      # the largest threshold: the walk goes on up to and including it
+        self.scaled = self.scale[-1] != (1, Fraction(1))
         self.metric_name = "cone-level"
         r = 1
         while len(cone_points(self.table, r)) < target and r < 40:
             r += 1
         self.r = r
-        self.palette = (1, 2, 1, 3, 4, 0, 1, 3, 2, 4, -1, 1) if scaled else (1, 2, 1, 0, 2, 1, -1, 1)
+        inside = [q for q in range(-1, self.beyond) if self.accepted_pos(q)]
+        self.palette = tuple(list(range(-1, self.beyond)) + inside * 2)
         self._lv = {}
+
+    def accepted_pos(self, q):
+        return 2 * self.i_min < q <= 2 * self.i_max
+
+    def region(self, q):
+        if q == self.beyond:
+            return "beyond"
+        name = lambda t: ("sintlmin" if t[0] == 0 else "sintlmax") + ("" if t[1] == 1 else "*%s" % t[1])
+        if q % 2 == 0:
+            return "at " + name(self.scale[q // 2])
+        if q == -1:
+            return "below " + name(self.scale[0])
+        return "between %s and %s" % (name(self.scale[(q - 1) // 2]), name(self.scale[(q + 1) // 2]))
 
     def level(self, p):
         if p not in self._lv:
@@ -130,7 +153,7 @@ class BandModel:
             return -1
         lv = self.level(p)
         if lv is None or lv > self.r:
-            return 5
+            return self.beyond
         return self.palette[_mix(p, self.seed) % len(self.palette)]
 
     def absent(self, p):
@@ -138,7 +161,7 @@ class BandModel:
 
     def expected(self):
         """the reference walk; also checks that it reaches every zone point (model validity)"""
-        cut = 4
+        cut = self.cut
         seen = []
 
         def far(p):
@@ -163,8 +186,8 @@ class BandModel:
                 p3 = tuple(p3[i] + g3[i] for i in range(3))
                 if far(p3) or not any(g3):
                     break
-        acc = [p for p, _isfirst in seen if any(p) and self.pos(p) in (1, 2) and not self.absent(p)]
-        brute = [p for p, _ci in cone_points(self.table, self.r) if self.pos(p) in (1, 2) and not self.absent(p) and any(p)]
+        acc = [p for p, _isfirst in seen if any(p) and self.accepted_pos(self.pos(p)) and not self.absent(p)]
+        brute = [p for p, _ci in cone_points(self.table, self.r) if self.accepted_pos(self.pos(p)) and not self.absent(p) and any(p)]
         if sorted(acc) != sorted(brute):
             raise AnalysisError("band model is not walk-complete (reference walk %d rows, zone %d rows)" % (len(acc), len(brute)))
         return acc
@@ -190,6 +213,7 @@ class WalkEval(TailEval):
         self.probed = 0
         self.consulted = []       # (point, sysconditions, crystal_system, cell_choice)
         self.thresholds = set()
+        self.new_threshold = False
         self.cell_sign = 1
         self.flip = None
 
@@ -247,32 +271,39 @@ class WalkEval(TailEval):
             return None
         T = (s * a - d) / a
         lo, hi = Rat.atom("sintlmin"), Rat.atom("sintlmax")
-        if T.equals(lo):
-            tp = 0
-        elif T.equals(hi):
-            tp = 2
-        else:
-            k = T / hi
-            if not (k.is_const() and k.const_value() > 1):
-                return None
-            tp = 4
-            self.thresholds.add(str(k.const_value()))
+        th = None
+        for base, atom in ((0, lo), (1, hi)):
+            k = T / atom
+            if k.is_const() and Fraction(1, 2) < k.const_value() < 2:
+                th = (base, Fraction(k.const_value()))
+        if th is None:
+            return None
+        self.thresholds.add(th)
+        if th not in self.model.scale:
+            # a threshold the model was not built for: this run only collects thresholds (its result is discarded)
+            self.new_threshold = True
+            th = (th[0], Fraction(1))
+        tp = 2 * self.model.scale.index(th)
         p = tuple(int(x) for x in S[0][2:-1].split(","))
         pos = self.model.pos(p)
         rel = (pos > tp) - (pos < tp)
         return rel if a.const_value() > 0 else -rel
 
 
-def run_walk(mod, table, Laue, cc, csys, seed, output_stl, target=45, scaled=None, flip=None, fname="genhkl_base"):
+def run_walk(mod, table, Laue, cc, csys, seed, output_stl, target=45, scale=None, flip=None, fname="genhkl_base"):
     """-> dict(rows=[(h,k,l)], keys_ok, col_ok, consulted=..., expected=[...], model=...)
-    scaled=None: the band positions between / at-cutoff are used iff the code itself compares with a multiple > 1 of sintlmax
-    for this combination (observed on a first run without them)"""
-    if scaled is None:
-        first = run_walk(mod, table, Laue, cc, csys, seed, output_stl, target, scaled=False, flip=flip, fname=fname)
-        if not first.get("thresholds"):
-            return first
-        return run_walk(mod, table, Laue, cc, csys, seed, output_stl, target, scaled=True, flip=flip, fname=fname)
-    model = BandModel(table, seed, scaled, target)
+    scale=None: the thresholds are the ones the code itself compares with for this combination, observed on a first run
+    on the plain model (sintlmin, sintlmax) and added until no new one shows up"""
+    if scale is None:
+        scale = [(0, Fraction(1)), (1, Fraction(1))]
+        for _round in range(4):
+            res = run_walk(mod, table, Laue, cc, csys, seed, output_stl, target, scale=scale, flip=flip, fname=fname)
+            more = sorted(set(res.get("thresholds", [])) - set(scale))
+            if not more:
+                return res
+            scale = sorted(set(scale) | set(more))
+        raise AnalysisError("genhkl_base compares sin(theta)/lambda with ever new thresholds")
+    model = BandModel(table, seed, scale, target)
     expected = model.expected()
     fn = mod.func(fname)
     ev = WalkEval(mod, model)
@@ -289,9 +320,9 @@ def run_walk(mod, table, Laue, cc, csys, seed, output_stl, target=45, scaled=Non
         out = r.value
     except (PyRaise, RaiseReached) as e:
         return {"error": "genhkl_base raises %s on the band model" % (getattr(e, "name", None) or type(e).__name__), "model": model, "expected": expected,
-                "thresholds": sorted(ev.thresholds), "scaled": scaled}
+                "thresholds": sorted(ev.thresholds), "scaled": model.scaled}
     res = {"model": model, "expected": expected, "consulted": ev.consulted, "probed": ev.probed, "bad_cell": ev.bad_cell,
-           "thresholds": sorted(ev.thresholds), "syscond": syscond, "params": (csys, cc), "scaled": scaled}
+           "thresholds": sorted(ev.thresholds), "syscond": syscond, "params": (csys, cc), "scaled": model.scaled}
     if isinstance(out, Sorted):
         rows, keys = out.rows, out.keys
     else:
@@ -338,10 +369,10 @@ def describe(res):
     parts = []
     if missing:
         p = missing[0]
-        parts.append("%d accepted cone point(s) are missing, e.g. %s (%s)" % (len(missing), p, REGION[model.pos(p)]))
+        parts.append("%d accepted cone point(s) are missing, e.g. %s (%s)" % (len(missing), p, model.region(model.pos(p))))
     if extra:
         p = extra[0]
-        why = "listed %d times" % cg[p] if ce[p] else ("extinct" if model.absent(p) and model.pos(p) in (1, 2) else REGION[model.pos(p)])
+        why = "listed %d times" % cg[p] if ce[p] else ("extinct" if model.absent(p) and model.accepted_pos(model.pos(p)) else model.region(model.pos(p)))
         parts.append("%d row(s) must not be there, e.g. %s (%s)" % (len(extra), p, why))
     return False, "; ".join(parts) + " [band model: zone of cone level <= %d, seed %d]" % (model.r, model.seed)
 
@@ -369,7 +400,8 @@ def _job(args):
     out = {"ok": ok, "msg": msg, "rows": sorted(res.get("rows", [])), "nexp": len(res["expected"]), "probed": res.get("probed", 0),
            "keys_ok": res.get("keys_ok", True), "col_ok": res.get("col_ok", True), "int_ok": res.get("int_ok", True),
            "key_example": res.get("key_example"), "col_example": res.get("col_example"), "bad_cell": res.get("bad_cell"),
-           "thresholds": res.get("thresholds", []), "zone": res["model"].r, "scaled": bool(res.get("scaled"))}
+           "thresholds": ["%s*%s" % ("sintlmin" if b_ == 0 else "sintlmax", k_) for b_, k_ in res.get("thresholds", [])],
+           "zone": res["model"].r, "scaled": bool(res.get("scaled"))}
     cons = set()
     sys_ok = True
     pats = {(cs_, cc_) for _p, _sc, cs_, cc_ in res.get("consulted", []) if isinstance(cs_, (str, type(None))) and isinstance(cc_, (str, type(None)))}
@@ -378,7 +410,7 @@ def _job(args):
         # sysabs is called with different arguments at different sites: a site whose answer does not reach the result is dead
         for pat in sorted(pats, key=repr):
             try:
-                alt = run_walk(mod, table, Laue, cc, csys, seed, flag, target, scaled=res.get("scaled"), flip=pat)
+                alt = run_walk(mod, table, Laue, cc, csys, seed, flag, target, scale=res["model"].scale, flip=pat)
             except AnalysisError as e:
                 return key, {"analysis_error": str(e)}
             if "error" not in alt and sorted(alt.get("rows", [])) == sorted(res.get("rows", [])):
